@@ -771,6 +771,12 @@ pub(crate) struct NodeId {
 
 impl NodeId {
     pub(crate) fn new() -> Self {
+        #[cfg(feature = "verif")]
+        if true {
+            return Self {
+                id: crate::verif::next_id(0),
+            };
+        }
         static ID_COUNTER: std::sync::atomic::AtomicU32 = AtomicU32::new(1);
         let id = ID_COUNTER.fetch_add(1, Ordering::Relaxed);
         Self { id }
